@@ -399,6 +399,7 @@ EXPLANATION = (
     "deleted, other->tracked = created, neither = dropped). R5: the only drops after a match are strict comparisons with the "
     "window bounds on the name timestamp; every m.group(name) is defined in all regexes that reach it or guarded. Does NOT decide "
     "that the listing's window (C14) is the same inclusive window.")
+TECHNIQUE = ('Python ast; abstract execution of flag chains -> regular-language equality with the listing grammar for all flag rows; event conversion by flag states')
 ASSUMPTIONS = ["watchdog delivers events only for watched paths and matches with re.match on the decoded path",
                "fixed parts of names are lower case (watchdog compiles case-insensitively by default)"]
 FILES = [WD, "python/digital_rf/list_drf.py", "python/digital_rf/ringbuffer.py"]
